@@ -20,6 +20,23 @@ func (g *gen) block(n int, depth int) []Stmt {
 	for i := 0; i < n && g.stmtBudget > 0; i++ {
 		out = append(out, g.stmt(depth)...)
 	}
+	// observability of block-local variables: what a `var` declared in this block holds when the
+	// block ends is stored to an output slot (so that e.g. a loop-body local that wrongly keeps
+	// its value across iterations is seen)
+	if g.outSlot != nil && len(g.scopes) > 0 {
+		for _, sv := range g.scopes[len(g.scopes)-1] {
+			if sv.v.Kind != VVar || sv.readonly || sv.v.T.K == TPtr || !g.chance(35, "bobs") {
+				continue
+			}
+			vt := sv.v.T
+			cands := g.pathsTo([]Expr{g.outSlot()}, func(t *Type) bool { return t.Same(vt) })
+			if len(cands) == 0 {
+				continue
+			}
+			g.class("stmt:block-local-observed")
+			out = append(out, &Assign{L: g.buildPath(cands[g.intn(len(cands), "bobsc")], 1, true), R: &VarRef{sv.v}})
+		}
+	}
 	return out
 }
 
@@ -399,7 +416,13 @@ func (g *gen) loopStmt(depth int) []Stmt {
 				g.class("stmt:continuing:calls-helper")
 				step = &Assign{L: cref(), R: &CallE{Fn: g.stepFn(ctr.T), Args: []Expr{cref()}}}
 			}
-			l.Continuing = append(g.block(g.intn(2, "cbn"), 0), step)
+			cdepth := 0
+			if g.chance(40, "cdepth") && !g.f.off("continuing.nested-control-flow") {
+				// if / switch (with its own breaks) / nested loops inside the continuing block
+				g.class("stmt:continuing:nested-control-flow")
+				cdepth = 1
+			}
+			l.Continuing = append(g.block(g.intn(2, "cbn")+cdepth, cdepth), step)
 			g.noReturn = save
 			g.inLoop = saveLoop
 			l.BreakIf = &Binary{Op: ">=", L: cref(), R: limE, T: TBool}
